@@ -1084,6 +1084,13 @@ func (c *Conn) handleFinish(ctx context.Context, id answerID, releaseResultCaps 
 		ans.cancel()
 	}
 	if ans.flags&returnSent == 0 {
+		if ans.flags&resultsReady != 0 {
+			// The Return is being written (returnSent is only set once
+			// the write has come back).  The remote vat may already have
+			// it and is then free to reuse the ID: give the slot up now;
+			// the returning goroutine finishes the teardown.
+			delete(c.answers, id)
+		}
 		c.mu.Unlock()
 		return nil
 	}
